@@ -13,7 +13,9 @@ META = dict(
          "transaction manager and a database driver that may fail at Begin, at every statement, at Commit and at "
          "Rollback; TLC checks its atomicity invariants and (TxGen.tla) enumerates every complete behaviour of 1-3 "
          "calls on one Conn (plus seeded simulation of 4-call histories). Each behaviour scripts a sqlmock database and the body (nil / error / panic at any "
-         "statement) and is run through Conn.Transact, Conn.TransactCtx and sqlc.CachedConn.Transact(Ctx). "
+         "statement) and is run through Conn.Transact, Conn.TransactCtx and sqlc.CachedConn.Transact(Ctx); the context handed to "
+         "the Ctx entry points is live, already cancelled, already expired, or cancelled by the body (a manager may "
+         "refuse a dead context only before beginning, or skip the body and roll back). "
          "TxImpl.tla models the deferred function of transactOnConn (recover branch empty / rollback / re-raise) "
          "against the same predicates (lead only). The "
          "caller's result class and the Commit/Rollback calls that reached the database driver are compared with "
@@ -23,7 +25,7 @@ META = dict(
          "outcomes the statement allows; every case is executed by QueryRow(s)(Partial) through a Conn, a "
          "transaction session, a prepared statement and sqlc's NoCache pass-through.",
     note="Trusted: TLC, sqlmock, database/sql, the driver's counting wrapper around the sqlmock connection. "
-         "Not covered: ErrBadConn retries of database/sql, context cancellation, nested transactions, the breaker "
+         "Not covered: ErrBadConn retries of database/sql, a context dying while a statement is in flight, nested transactions, the breaker "
          "tripping (fresh Conn per behaviour, <= 4 calls), bulk inserter, sqlc's cached query paths. The statement "
          "is silent on (so both outcomes are allowed or the case is not generated): result error text when the "
          "Rollback itself fails, NULL arriving in a field (error or zero), tagged fields inside an embedded struct "
@@ -38,18 +40,19 @@ FINISH = dict(rule="transactions: complete TLC enumeration (BFS over the history
                    "every call / every query of every case is compared with the specification")
 
 TX_INV = ["TypeOK", "NilMeansCommitted", "ElseRolledBack", "CommitIffNil", "OneEnding", "NoDangling", "NoTxNoEnd",
-          "FailureIsReported"]
+          "BegunIsEnded", "FailureIsReported"]
 ROW_INV = ["OrderIndependent", "ExtraIgnored", "StrictNeverPartial", "StrictCountsLeafFields", "EmptyIsNotFound",
            "FieldsComeFromTheirColumns", "NeverEmpty"]
 IMPL_INV = ["NilMeansCommitted", "ElseRolledBack", "FailureIsReported", "NoDangling", "OneEnding"]
+CTX = dict(Ctxs='{"live","cancelled","expired","bodycancel"}', CtxApis='{"TransactCtx","CachedTransactCtx"}')
 APIS4 = '{"Transact","TransactCtx","CachedTransact","CachedTransactCtx"}'
 
 
 def mc(ctx):
-    K = dict(MaxStmts=2, MaxCalls=2, Apis='{"Transact","TransactCtx"}', Kinds='{"exec","query"}')
+    K = dict(MaxStmts=2, MaxCalls=2, Apis='{"Transact","TransactCtx"}', Kinds='{"exec","query"}', **CTX)
     cfg = core.render_cfg(spec="Spec", constants=K, invariants=TX_INV, properties=["EndsOnlyAtEnd"], view="core")
     r = ctx.tlc("Tx", cfg, constants=K, name="Tx-mc", workers=W, coverage=True)
-    ctx.check_coverage(r, ["Call", "Return", "Begin", "Stmt", "BodyEnd", "Commit", "Rollback"])
+    ctx.check_coverage(r, ["Call", "Return", "Begin", "Refuse", "SkipBody", "Stmt", "BodyEnd", "Commit", "Rollback"])
     # mechanism-shaped model of transactOnConn's deferred function: which shapes of the recover branch keep
     # the atomicity predicates (a lead / a sanity check of the repair, never a verdict)
     leads = {}
@@ -64,6 +67,7 @@ def mc(ctx):
 
 
 def tx_gen(ctx, name, simulate=None, **K):
+    K = dict(CTX, **K)
     cfg = core.render_cfg(spec="GSpec", constants=K, invariants=["Emit"])
     if simulate:
         return ctx.tlc("TxGen", cfg, constants=K, name=name, workers=1, timeout=900, simulate=simulate,
@@ -89,7 +93,8 @@ def run(ctx):
     else:
         plans.append(("tx1d", dict(MaxStmts=3, MaxCalls=1, Apis=APIS4, Kinds='{"exec","query"}')))
         plans.append(("tx2", dict(MaxStmts=1, MaxCalls=2, Apis=APIS4, Kinds='{"exec","query"}')))
-        plans.append(("tx3", dict(MaxStmts=1, MaxCalls=3, Apis='{"Transact"}', Kinds='{"exec"}')))
+        plans.append(("tx3", dict(MaxStmts=1, MaxCalls=3, Apis='{"TransactCtx"}', Kinds='{"exec"}',
+                                  Ctxs='{"live","cancelled"}')))
     # longer histories on one Conn (4 calls stay below the breaker's protection threshold), seeded
     sim = dict(MaxStmts=2, MaxCalls=4, Apis=APIS4, Kinds='{"exec","query"}')
     for name, K in plans + [("tx4sim", sim)]:
@@ -110,6 +115,9 @@ def run(ctx):
     cnt, _ = ctx.replay(PKG, OVERLAY, RUN, path, label="rowmap", shards=16, binp=binp)
     if not cnt.get("rowmap.strict-fewer-than-leaf-fields"):
         raise core.Infra("vacuous: no strict case with fewer columns than leaf fields of an embedded struct was replayed")
+    for k in ("ctx-cancelled", "ctx-expired", "ctx-bodycancel"):
+        if not ctx.counters.get("tx1.tx." + k):
+            raise core.Infra("vacuous: no transaction with context scenario %s was judged" % k)
     ctx.assumptions += [
         "database/sql forwards exactly one driver Commit/Rollback per Tx.Commit/Tx.Rollback (later calls end in ErrTxDone)",
         "fresh sqlx.Conn (fresh breaker) per behaviour; at most 4 Transact calls, so the breaker never rejects"]
